@@ -39,8 +39,11 @@ def infer_one_redirection(url):
     target = None
 
     if redirection_match is not None:
-        # NOTE: avoiding empty AMP redirects etc.
-        if len(url) > redirection_match.end():
+        # NOTE: avoiding empty AMP redirects etc.: a query, a fragment or
+        # trailing whitespace alone are no cached url ("/c/s/#top", "/c/s/ ")
+        cached = CONTROL_CHARS_RE.sub("", url[redirection_match.end() :]).strip()
+
+        if cached and cached[0] not in "/?#":
             target = "https://" + url[redirection_match.end() :]
 
     else:
